@@ -17,6 +17,8 @@ CONSTANTS
   DevFetchOutUnchecked = FALSE
   DevFetchLateAuth = FALSE
   DevRateKeyHeader = FALSE
+  DevRefundOnRefusal = FALSE
+  RateBad = FALSE
   DevRawNewlines = FALSE
 INVARIANTS C27_Refused C27_NoEffect C28_Admission C28_BeforeBody C28_Rate C29_RoundTrip C29_ListComplete
 VIEW View
